@@ -2742,7 +2742,11 @@ class netcdf(PseudoNetCDFFile, NetCDFFile):
 
     def close(self):
         try:
-            return NetCDFFile.close(self)
+            # the C library recycles handle ids: closing an already closed
+            # file again (explicitly or from __del__) would close whichever
+            # other file was given the same id in the meantime
+            if self.isopen():
+                return NetCDFFile.close(self)
         except Exception as e:
             warn(str(e))
 
